@@ -179,9 +179,11 @@ def aux_check(ex, g):
 # ---------------------------------------------------------------------------------------------
 # running the real readers
 
-def run_impl(fmt, src, d, tier_file=None):
+def run_impl(fmt, src, d, tier_file=None, dual=None):
     """returns the Grid built by the real code"""
     import uxarray as ux
+    if dual is not None:
+        d = dict(d, dual=dual)
     if fmt in ("ugrid", "scrip", "exodus", "esmf", "geos", "icon"):
         if tier_file:
             return ux.open_grid(tier_file)
@@ -193,11 +195,7 @@ def run_impl(fmt, src, d, tier_file=None):
             return ux.Grid.from_dataset(src, use_dual=d["dual"])
         return ux.open_grid(src, use_dual=d["dual"])
     if fmt == "topo":
-        kw = dict(src)
-        kw["face_node_connectivity"] = kw["face_node_connectivity"].copy()
-        for k in list(kw):
-            if k.endswith("_connectivity"):
-                kw[k] = kw[k].copy()
+        kw = dict(src)                      # the caller's arrays themselves
         if d["entry"] == "open_grid_dict":
             return ux.open_grid(kw)
         return ux.Grid.from_topology(**kw)
@@ -214,6 +212,13 @@ def run_impl(fmt, src, d, tier_file=None):
 
 def build_case(c, rng):
     """c: {'fmt', 'dialect', 'mesh' (json) ...} -> (source, Expect, image)"""
+    src, ex, image = _build_case(c, rng)
+    if c["dialect"].get("shuffle") and c["fmt"] in FILE_FORMATS:
+        src = S.shuffle_vars(src, rng)
+    return src, ex, image
+
+
+def _build_case(c, rng):
     fmt, d = c["fmt"], c["dialect"]
     am = S.AMesh.from_json(c["mesh"]) if c.get("mesh") else None
     if fmt == "ugrid":
@@ -241,6 +246,85 @@ def build_case(c, rng):
         ext = ".geojson" if d["kind"] == "geojson" else ".shp"
         return S.build_geo(am, d, rng, os.path.join(SCR, "g%d%s" % (c.get("idx", 0), ext)))
     raise ValueError(fmt)
+
+
+# ---------------------------------------------------------------------------------------------
+# opening the same source object again: same answer, source untouched
+
+def _arr_snap(v):
+    a = np.array(v, copy=True)
+    return (a, str(a.dtype), a.shape)
+
+
+def snapshot(src):
+    import xarray as xr
+    if isinstance(src, xr.Dataset):
+        return {"vars": {k: _arr_snap(v.values) + (tuple(v.dims), repr(sorted((str(a), repr(b)) for a, b in v.attrs.items())))
+                         for k, v in src.variables.items()},
+                "attrs": repr(sorted((str(a), repr(b)) for a, b in src.attrs.items()))}
+    if isinstance(src, dict):
+        return {"vars": {k: (_arr_snap(v) if isinstance(v, np.ndarray) else (repr(v),)) for k, v in src.items()}, "attrs": ""}
+    if isinstance(src, np.ndarray):
+        return {"vars": {"array": _arr_snap(src)}, "attrs": ""}
+    return {"vars": {"object": (repr(src),)}, "attrs": ""}
+
+
+def _same(a, b):
+    if isinstance(a, np.ndarray):
+        if a.shape != b.shape or a.dtype != b.dtype:
+            return False
+        if a.dtype.kind == "f":
+            return bool(np.array_equal(a, b, equal_nan=True))
+        return bool(np.array_equal(a, b))
+    return a == b
+
+
+def snapshot_diff(s0, s1):
+    if sorted(s0["vars"]) != sorted(s1["vars"]):
+        return "variables %s -> %s" % (sorted(s0["vars"]), sorted(s1["vars"]))
+    for k in s0["vars"]:
+        for x, y in zip(s0["vars"][k], s1["vars"][k]):
+            if not _same(x, y):
+                return "variable %s changed: %s -> %s" % (k, str(x)[:200], str(y)[:200])
+    if s0["attrs"] != s1["attrs"]:
+        return "global attributes changed"
+    return None
+
+
+FP_NAMES = ["face_node_connectivity", "node_lon", "node_lat", "node_x", "node_y", "node_z", "face_lon", "face_lat",
+            "edge_lon", "edge_lat", "edge_node_connectivity", "face_edge_connectivity", "edge_face_connectivity",
+            "node_face_connectivity", "face_face_connectivity", "face_areas", "n_nodes_per_face"]
+
+
+def fingerprint(g):
+    """what a freshly constructed Grid holds, before anything is derived"""
+    return {k: _arr_snap(g._ds[k].values) for k in FP_NAMES if k in g._ds}
+
+
+def fingerprint_diff(f1, f2):
+    if sorted(f1) != sorted(f2):
+        return "variables %s vs %s" % (sorted(f1), sorted(f2))
+    for k in f1:
+        for x, y in zip(f1[k], f2[k]):
+            if not _same(x, y):
+                return "%s: first %s second %s" % (k, str(x)[:200], str(y)[:200])
+    return None
+
+
+def mpas_expect_from_snapshot(snap, dual):
+    """independent decoding of the MPAS tables as they were BEFORE any open: faces of the primal or dual mesh"""
+    v = {k: t[0] for k, t in snap["vars"].items()}
+    ex = S.Expect.__new__(S.Expect)
+    ex.aux = {}
+    if not dual:
+        pos = list(zip(np.rad2deg(v["lonVertex"]).tolist(), np.rad2deg(v["latVertex"]).tolist()))
+        ex.face_pos = [[pos[int(x) - 1] for x in row[:int(n)]] for row, n in zip(v["verticesOnCell"].tolist(), v["nEdgesOnCell"].tolist())]
+        ex.n_node = len(pos)
+    else:
+        pos = list(zip(np.rad2deg(v["lonCell"]).tolist(), np.rad2deg(v["latCell"]).tolist()))
+        ex.face_pos = [[pos[int(x) - 1] for x in row] for row in v["cellsOnVertex"].tolist()]
+        ex.n_node = len(pos)
+    return ex
 
 
 # ---------------------------------------------------------------------------------------------
@@ -364,6 +448,21 @@ def sweep_cases(rng, tier):
                     continue
                 for dt in ("int32", "int64"):
                     out.append(_mk("exodus", S.exodus_dialect(rng, am, force={"coord": coord, "blocks": blocks, "dtype": dt}), am, "sweep"))
+    # Exodus: 1..14 element blocks in file order (several blocks of one face size), variables in any order
+    import meshgen
+    m20 = meshgen._poly("icosa")
+    lon, lat = m20.lonlat()
+    icosa = S.AMesh(m20.faces, lon, lat, m20.nodes, "icosa", True)
+    pr = meshgen._poly("prism7")
+    for _ in range(6):
+        meshgen.subdivide_edge(pr, rng)
+    lon, lat = pr.lonlat()
+    prism = S.AMesh(pr.faces, lon, lat, pr.nodes, "prism7+", True)
+    for am in (icosa, prism):
+        for k in (1, 2, 5, 9, 10, 11, 12, 14):
+            for dt in ("int32", "int64"):
+                out.append(_mk("exodus", S.exodus_dialect(rng, am, force={"coord": "coord", "blocks": "runs", "n_blocks": k,
+                                                                            "dtype": dt, "shuffle": k % 2 == 0}), am, "sweep"))
     # SCRIP
     for am in mixed + unif:
         for lon in ("180", "360"):
@@ -410,6 +509,8 @@ def random_case(rng, big=False):
     d = getattr(S, fmt + "_dialect")(rng, am)
     if fmt in ("ugrid", "scrip", "exodus", "esmf", "mpas", "icon"):
         d["entry"] = rng.choice(["open_grid", "from_dataset"])
+    if fmt in FILE_FORMATS:
+        d["shuffle"] = rng.random() < 0.5
     return _mk(fmt, d, am, "random")
 
 
@@ -726,10 +827,14 @@ def run_case(ck, c, stats, collect):
         collect = None                       # the model is tied on the in-memory image; files add the I/O layer
     g = None
     fails = []
+    repeat = path is None and fmt not in ("geo", "exodus_fixture")
+    snap0 = snapshot(src) if repeat else None
+    fp1 = None
     try:
         with contextlib.redirect_stdout(io.StringIO()), warnings.catch_warnings():
             warnings.simplefilter("ignore")
             g = run_impl(fmt, src, d, path)
+            fp1 = fingerprint(g)
             fails = spec_check(ex, g)
             if not any(cl in ("shape", "n_face", "n_node") for cl, _ in fails):
                 for cl, det, k in aux_check(ex, g):
@@ -737,6 +842,32 @@ def run_case(ck, c, stats, collect):
     except Exception as e:
         import traceback
         fails.append(("raises", repr(e)[:300] + " @ " + traceback.format_exc()[-400:]))
+    if repeat and fp1 is not None:
+        # the SAME source object again: same answer; MPAS additionally in the other (primal/dual) mode;
+        # afterwards the source is bit-identical to what was handed in
+        try:
+            with contextlib.redirect_stdout(io.StringIO()), warnings.catch_warnings():
+                warnings.simplefilter("ignore")
+                g2 = run_impl(fmt, src, d, None)
+                bad = fingerprint_diff(fp1, fingerprint(g2))
+                if bad:
+                    fails.append(("second_open_differs", bad))
+                if fmt == "mpas":
+                    other = not d["dual"]
+                    cov = snap0["vars"]["cellsOnVertex"][0]
+                    if not other or (cov != 0).all():
+                        ex3 = mpas_expect_from_snapshot(snap0, other)
+                        g3 = run_impl(fmt, src, d, None, dual=other)
+                        for cl, det in spec_check(ex3, g3):
+                            fails.append(("other_mode_" + cl, "opened %s after %s: %s" % (
+                                "dual" if other else "primal", "primal" if other else "dual", det)))
+                stats["reopened"] = stats.get("reopened", 0) + 1
+        except Exception as e:
+            import traceback
+            fails.append(("second_open_raises", repr(e)[:300] + " @ " + traceback.format_exc()[-400:]))
+        bad = snapshot_diff(snap0, snapshot(src))
+        if bad:
+            fails.append(("source_mutated", bad))
     for cl, det in fails:
         ck.fail(cl, case, fl, detail=det)
         stats["fail"][(fmt, cl)] = stats["fail"].get((fmt, cl), 0) + 1
@@ -831,12 +962,15 @@ def main(ck):
         "impl_clause_failures_by_format (all matched by known findings unless a VIOLATION is printed)":
             {"%s/%s" % k: v for k, v in sorted(stats["fail"].items())},
         "model_comparisons": n_cmp, "extraction_audit_cases": audit_n,
+        "sources_opened_again (same object, same result, source untouched; MPAS also primal<->dual)": stats.get("reopened", 0),
         "cases_through_netcdf_file": stats.get("via_file", 0), "file_write_skipped": stats.get("file_write_skipped", 0),
         "tolerance_deg": TOL,
         "clauses_checked_on_impl": ["n_face", "dtype", "padding_trailing", "index_range", "lon_range", "lat_range",
                                     "face_size", "face_corners (cyclic order, rotation free)", "n_node", "aux_rows",
                                     "aux_index_range", "aux_coords", "aux_lon_range", "aux_areas", "aux_npf", "aux_dims",
-                                    "aux_missing", "aux_distances", "raises"],
+                                    "aux_missing", "aux_distances", "raises", "second_open_differs", "second_open_raises",
+                                    "other_mode_<clause> (MPAS primal after dual / dual after primal on one dataset)",
+                                    "source_mutated"],
         "partial": "geopandas/shapely/pyogrio/netCDF/xarray I/O layers are external (oracle); float conversion "
                    "(rad2deg, xyz->lonlat) validated within 1e-9 deg, not proved; NaN->int cast modelled as the x86-64 result",
     })
@@ -845,7 +979,7 @@ def main(ck):
                    "xarray Dataset construction/renaming, geopandas.read_file, json (independent decoding of GeoJSON), "
                    "pyogrio raw reader (independent decoding of shapefiles), netCDF4 (thorough tier round trip)"]
     ck.assumptions += ["sources are well formed: indices within [start, start+n_node), declared fill value not a valid "
-                       "index, every node referenced by some face, MPAS dual meshes closed (every vertex has all its cells)",
+                       "index, corner positions of one face pairwise distinct, MPAS dual meshes closed (every vertex has all its cells)",
                        "positions within 1e-6 of a pole are exactly polar (snap zone of _xyz_to_lonlat_rad belongs to C04)"]
     shutil.rmtree(SCR, ignore_errors=True)
 
